@@ -1018,6 +1018,20 @@ class Spell:
                     pv = self.val(a.args[0])
                     return ('q', 'eye', pv)
                 return ('q', 'eye', ('other', U(a)))
+            if f == 'float' and len(e.args) == 1 and self.val(e.args[0]) == ('in', 'noise'):
+                return ('in', 'noise')          # a scale is a number: float() of it is that number
+            if f in ('max', 'builtins.max') and len(e.args) == 2 and not e.keywords and ('in', 'noise') in (self.val(e.args[0]), self.val(e.args[1])):
+                # a floor under the noise level: harmless only at the smallest positive double (every positive normal scale is at least that);
+                # any larger floor silently re-weights measurements that are more exact than it
+                other = e.args[1] if self.val(e.args[0]) == ('in', 'noise') else e.args[0]
+                if isinstance(other, ast.Name):
+                    md = [a.value for a in self.fi.module.tree.body if isinstance(a, ast.Assign) and len(a.targets) == 1 and U(a.targets[0]) == other.id]
+                    other = md[0] if len(md) == 1 else other
+                ot = U(other).replace(' ', '')
+                if ot in ('np.finfo(float).tiny', 'np.finfo(np.float64).tiny', 'sys.float_info.min', '5e-324', 'np.nextafter(0,1)', 'np.finfo(float).smallest_normal',
+                          'np.finfo(float).smallest_subnormal', '2.2250738585072014e-308'):
+                    return ('in', 'noise')
+                return ('other', 'noise floored at %s' % ot[:30])
             # a conversion of a given query keeps it
             for n in ast.walk(e):
                 if isinstance(n, ast.Name) and self.env.get(n.id, ('',))[0] == 'q' and self.env[n.id][1] in ('given', 'converted'):
